@@ -563,4 +563,63 @@ func main() {
 	}
 	d.WriteString("\nend Csproto.Generated\n")
 	writeIfChanged(filepath.Join(*out, "Dispatch.lean"), []byte(d.String()))
+
+	// F9: lazyproto accessors: helper used, expected wire type, csproto decode function, scratch slice
+	lz, err := load(filepath.Join(*repo, "lazyproto"))
+	if err != nil {
+		fmt.Println("parse error:", err)
+		os.Exit(1)
+	}
+	curInfo = lz.info
+	var rows []string
+	for _, f := range lz.files {
+		for _, dcl := range f.Decls {
+			fd, ok := dcl.(*ast.FuncDecl)
+			if !ok || fd.Recv == nil || len(fd.Recv.List) == 0 {
+				continue
+			}
+			rt := fd.Recv.List[0].Type
+			if st, ok := rt.(*ast.StarExpr); ok {
+				rt = st.X
+			}
+			if id, ok := rt.(*ast.Ident); !ok || id.Name != "FieldData" {
+				continue
+			}
+			if !strings.HasSuffix(fd.Name.Name, "Value") && !strings.HasSuffix(fd.Name.Name, "Values") {
+				continue
+			}
+			helper, wt, scratch := "-", "-", "-"
+			var decs []string
+			ast.Inspect(fd.Body, func(n ast.Node) bool {
+				ce, ok := n.(*ast.CallExpr)
+				if !ok {
+					return true
+				}
+				name := callName(ce)
+				if name == "scalarValue" || name == "sliceValue" {
+					helper = name
+					if len(ce.Args) >= 2 {
+						wt = exprString(ce.Args[1])
+					}
+					if name == "sliceValue" && len(ce.Args) >= 3 {
+						scratch = exprString(ce.Args[2])
+					}
+				}
+				if strings.HasPrefix(name, "csproto.Decode") || strings.HasPrefix(name, "binary.") || strings.HasPrefix(name, "slices.Clone") {
+					decs = append(decs, name)
+				}
+				return true
+			})
+			rows = append(rows, fmt.Sprintf("%s:%s:%s:%s:%s", fd.Name.Name, helper, strings.TrimPrefix(wt, "csproto."), strings.Join(decs, "+"), strings.TrimPrefix(scratch, "fd.")))
+		}
+	}
+	sort.Strings(rows)
+	var lzb strings.Builder
+	lzb.WriteString("/- REGENERATED on every run by harness/cmd/extract from /repo's Go source. Do not edit. -/\nnamespace Csproto.Generated\n\n")
+	fmt.Fprintf(&lzb, "def lazyAccessors : List String := %s\n", leanStrList(rows))
+	for _, r := range rows {
+		fmt.Printf("fact F9 accessor %s\n", r)
+	}
+	lzb.WriteString("\nend Csproto.Generated\n")
+	writeIfChanged(filepath.Join(*out, "Lazy.lean"), []byte(lzb.String()))
 }
